@@ -52,7 +52,7 @@ Print Assumptions C02_covered_cases.
    a silent client is sent the next packet without having acknowledged anything *)
 Definition d1_case : tcase :=
   {| t_content := [1; 2; 3]%N; t_chunks := []; t_netascii := false; t_options := [(lit "blksize", lit "8")];
-     t_limits := {| max_bs := 65464; max_tmo := 30; default_tmo := 2 |}; t_retries := 1; t_wrap := Some 0%N;
+     t_limits := {| max_bs := 65464; max_tmo := 30720; default_tmo := 2048 |}; t_retries := 1; t_wrap := Some 0%N;
      t_kind := KNoFileno; t_events := [];
      t_proc := 0; t_v := {| retry_fallthrough := true; errcode_raises := false; late_recv := false |}; t_nv := ncurrent; t_na_always_skip := false |}.
 Theorem C02_refuted_D1_retry_fallthrough : holds d1_case (run_transfer_case d1_case) <> [].
@@ -64,7 +64,7 @@ Proof. vm_compute. discriminate. Qed.
    the queue was empty - tick 3001 instead of 1024: no retransmission, no end *)
 Definition d20_case (late : bool) : tcase :=
   {| t_content := []; t_chunks := []; t_netascii := false; t_options := [];
-     t_limits := {| max_bs := 65464; max_tmo := 30; default_tmo := 1 |}; t_retries := 0; t_wrap := Some 0%N;
+     t_limits := {| max_bs := 65464; max_tmo := 30720; default_tmo := 1024 |}; t_retries := 0; t_wrap := Some 0%N;
      t_kind := KNoFileno; t_events := repeat (Recv 0 client [0; 4; 0; 7]%N) 3000;
      t_proc := 1; t_v := {| retry_fallthrough := false; errcode_raises := false; late_recv := late |};
      t_nv := ncurrent; t_na_always_skip := false |}.
